@@ -4,7 +4,7 @@
 set -u
 SEED=$(cd "$1" && pwd); S=${SCRATCH:-/var/tmp/vfy-scratch}
 export PATH=/opt/veriftools/go1.26.8/bin:$PATH GOFLAGS=-mod=mod GOPROXY=off GOTOOLCHAIN=local GOWORK=off
-cd $S || exit 2
+"$(dirname "$0")"/mk_scratch.sh; cd $S || exit 2
 git checkout -q --detach $(git -C /repo rev-parse HEAD) 2>/dev/null
 git status --short | grep -v spatial_reference_systems.go | grep -v '^??' && { echo "scratch not clean"; exit 2; }
 rm -rf seeddemo; mkdir seeddemo; cp $SEED/demo_test.go seeddemo/
